@@ -30,4 +30,11 @@ theorem homogeneous_iterate {n : Type} [Fintype n] [DecidableEq n] {K : Type} [C
     rw [this, ← h, ← ih]
 
 
+theorem qget_ofFn (r c : Nat) (f : Nat → Nat → Rat) (i j : Nat) :
+    (QMat.ofFn r c f).get i j = if i < r ∧ j < c then f i j else 0 := by
+  unfold QMat.get QMat.ofFn
+  simp only [Array.getD_eq_getD_getElem?, Array.getElem?_map, Array.getElem?_range]
+  by_cases hi : i < r <;> by_cases hj : j < c <;> simp [hi, hj]
+
+
 end IrisVerif.Acov
